@@ -19,6 +19,8 @@ class Agent:
         self._callback = callback
         self._thread = None
         self._finished = False
+        self._started = False
+        self._stop_wanted = False
         self._stop_lock = threading.Lock()
         self._name = name or 'job {}'.format(id(self))
 
@@ -36,9 +38,15 @@ class Agent:
     def execute(self):
         # Whatever an earlier run of the same job object left behind is
         # dropped before this run can be the target of a request.
-        clear_stop = getattr(self._job, 'clear_stop', None)
-        if clear_stop is not None:
-            clear_stop()
+        with self._stop_lock:
+            clear_stop = getattr(self._job, 'clear_stop', None)
+            if clear_stop is not None:
+                clear_stop()
+            self._started = True
+            if self._stop_wanted:
+                # Asked to stop while still waiting in the queue, or in the
+                # moment between becoming the current job and getting here.
+                self._job.request_stop()
         self._thread = threading.Thread(target=self._execute_and_call)
         self._thread.start()
         return self
@@ -47,8 +55,12 @@ class Agent:
         # A request that arrives when this run is already over must not leak
         # into a later execution of the same job object. The lock keeps a
         # request that passed the test from being delivered after the end.
+        # One that arrives before this run has been started is kept for it:
+        # the job object may be running for another agent right now.
         with self._stop_lock:
-            if not self._finished:
+            if not self._started:
+                self._stop_wanted = True
+            elif not self._finished:
                 self._job.request_stop()
 
     def _execute_and_call(self):
